@@ -385,6 +385,43 @@ pub fn object_from_entries(
     Ok(Guarded::with_guard(JsValue::Object(result), result_guard))
 }
 
+/// HasOwnProperty(ToObject(target), ToPropertyKey(key)), exotic own properties included (the
+/// elements and length of an array, the characters and length of a String object)
+fn has_own_property(
+    interp: &mut Interpreter,
+    target: JsValue,
+    key: &JsValue,
+) -> Result<bool, JsError> {
+    let boxed = interp.to_object(target)?;
+    let JsValue::Object(obj_ref) = &boxed.value else {
+        return Ok(false);
+    };
+    let key = match key {
+        JsValue::Object(_) => {
+            let text = interp.coerce_to_string(key)?;
+            interp.property_key_from_js_string(text)
+        }
+        other => interp.property_key_from_value(other),
+    };
+
+    let borrowed = obj_ref.borrow();
+    let exotic_length = match &borrowed.exotic {
+        // For enums, check EnumData
+        ExoticObject::Enum(data) => return Ok(data.has_property(&key)),
+        ExoticObject::Array { elements } => Some(elements.len()),
+        ExoticObject::StringObj(s) => Some(s.as_str().chars().count()),
+        _ => None,
+    };
+    if let Some(len) = exotic_length {
+        match &key {
+            PropertyKey::Index(index) if (*index as usize) < len => return Ok(true),
+            PropertyKey::String(name) if name.as_str() == "length" => return Ok(true),
+            _ => {}
+        }
+    }
+    Ok(borrowed.properties.contains_key(&key))
+}
+
 pub fn object_has_own(
     interp: &mut Interpreter,
     _this: JsValue,
@@ -392,22 +429,7 @@ pub fn object_has_own(
 ) -> Result<Guarded, JsError> {
     let obj = args.first().cloned().unwrap_or(JsValue::Undefined);
     let key = args.get(1).cloned().unwrap_or(JsValue::Undefined);
-
-    let JsValue::Object(obj_ref) = obj else {
-        return Ok(Guarded::unguarded(JsValue::Boolean(false)));
-    };
-
-    let key_str = interp.to_js_string(&key).to_string();
-    let interned_key = interp.property_key(&key_str);
-
-    let borrowed = obj_ref.borrow();
-    let has = if let ExoticObject::Enum(ref data) = borrowed.exotic {
-        // For enums, check EnumData
-        data.has_property(&interned_key)
-    } else {
-        // Standard object - check properties
-        borrowed.properties.contains_key(&interned_key)
-    };
+    let has = has_own_property(interp, obj, &key)?;
     Ok(Guarded::unguarded(JsValue::Boolean(has)))
 }
 
@@ -631,50 +653,8 @@ pub fn object_has_own_property(
     this: JsValue,
     args: &[JsValue],
 ) -> Result<Guarded, JsError> {
-    let JsValue::Object(obj) = this else {
-        return Ok(Guarded::unguarded(JsValue::Boolean(false)));
-    };
-
     let arg = args.first().cloned().unwrap_or(JsValue::Undefined);
-
-    // Handle symbol arguments directly
-    let key = if let JsValue::Symbol(ref sym) = arg {
-        PropertyKey::Symbol(sym.clone())
-    } else {
-        let prop_name = interp.to_js_string(&arg).to_string();
-        interp.property_key(&prop_name)
-    };
-
-    let obj_ref = obj.borrow();
-    let has_prop = if let ExoticObject::Enum(ref data) = obj_ref.exotic {
-        // For enums, check EnumData
-        data.has_property(&key)
-    } else if let ExoticObject::Array { ref elements } = obj_ref.exotic {
-        // For arrays, check if key is a valid array index
-        match &key {
-            PropertyKey::Index(index) => {
-                // Direct numeric index - check if within bounds
-                (*index as usize) < elements.len()
-            }
-            PropertyKey::String(key_str) => {
-                // Try to parse as integer index
-                if let Ok(index) = key_str.as_str().parse::<usize>() {
-                    // Check if index is within bounds
-                    index < elements.len()
-                } else {
-                    // Non-numeric key - check regular properties
-                    obj_ref.properties.contains_key(&key)
-                }
-            }
-            PropertyKey::Symbol(_) => {
-                // Symbol key - check regular properties
-                obj_ref.properties.contains_key(&key)
-            }
-        }
-    } else {
-        // Standard object - check properties
-        obj_ref.properties.contains_key(&key)
-    };
+    let has_prop = has_own_property(interp, this, &arg)?;
     Ok(Guarded::unguarded(JsValue::Boolean(has_prop)))
 }
 
@@ -812,8 +792,18 @@ pub fn object_get_own_property_descriptor(
 
     let obj_borrowed = obj_ref.borrow();
 
+    // Elements and length of arrays, characters and length of String objects
+    let exotic_own = match obj_borrowed.exotic {
+        ExoticObject::Array { .. } | ExoticObject::StringObj(_) => obj_borrowed
+            .get_own_property_with_exotic(&key)
+            .map(|property| (property, false)),
+        _ => None,
+    };
+
     // Use get_property_descriptor which handles exotic properties (function name/length, array elements, etc.)
-    if let Some((property, in_prototype)) = obj_borrowed.get_property_descriptor(&key) {
+    if let Some((property, in_prototype)) =
+        exotic_own.or_else(|| obj_borrowed.get_property_descriptor(&key))
+    {
         // Only return descriptor if it's an own property (not from prototype)
         if in_prototype {
             return Ok(Guarded::unguarded(JsValue::Undefined));
@@ -878,14 +868,37 @@ pub fn object_get_own_property_names(
     // Keep to_obj_guarded alive while we use obj_ref
     let _guard = to_obj_guarded;
 
-    // Filter out symbol keys - getOwnPropertyNames only returns string keys
-    let names: Vec<JsValue> = obj_ref
-        .borrow()
-        .properties
-        .keys()
-        .filter(|key| !key.is_symbol())
-        .map(|key| JsValue::String(JsString::from(key.to_string())))
-        .collect();
+    // String keys only, own exotic properties included (elements and length of an array,
+    // characters and length of a String object); the engine's bookkeeping slots are not
+    // properties a script can see
+    let names: Vec<JsValue> = {
+        let obj = obj_ref.borrow();
+        let mut names: Vec<JsValue> = Vec::new();
+        let exotic_length = match &obj.exotic {
+            ExoticObject::Array { elements } => Some(elements.len()),
+            ExoticObject::StringObj(s) => Some(s.as_str().chars().count()),
+            _ => None,
+        };
+        if let Some(len) = exotic_length {
+            names.extend((0..len).map(|i| JsValue::String(JsString::from(i.to_string()))));
+            names.push(JsValue::String(JsString::from("length")));
+        }
+        let covered = exotic_length.unwrap_or(0);
+        names.extend(
+            obj.properties
+                .keys()
+                .filter(|key| match key {
+                    PropertyKey::Symbol(_) => false,
+                    PropertyKey::Index(i) => (*i as usize) >= covered,
+                    PropertyKey::String(s) => {
+                        !matches!(s.as_str(), "__super__" | "__super_target__")
+                            && !(exotic_length.is_some() && s.as_str() == "length")
+                    }
+                })
+                .map(|key| JsValue::String(JsString::from(key.to_string()))),
+        );
+        names
+    };
 
     let guard = interp.heap.create_guard();
     let arr = interp.create_array_from(&guard, names);
@@ -1174,7 +1187,9 @@ pub fn object_get_prototype_of(
 ) -> Result<Guarded, JsError> {
     let obj = args.first().cloned().unwrap_or(JsValue::Undefined);
 
-    let JsValue::Object(obj_ref) = obj else {
+    // Primitives are boxed (their prototype is the wrapper's), null/undefined throw
+    let boxed = interp.to_object(obj)?;
+    let JsValue::Object(obj_ref) = boxed.value.clone() else {
         return Err(JsError::type_error(
             "Object.getPrototypeOf requires an object",
         ));
@@ -1339,10 +1354,18 @@ pub fn object_get_own_property_descriptors(
     let enumerable_key = PropertyKey::String(interp.intern("enumerable"));
     let configurable_key = PropertyKey::String(interp.intern("configurable"));
 
-    // Collect all property keys first
+    // Collect all property keys first (elements / characters and length included, the
+    // engine's bookkeeping slots not)
     let prop_keys: Vec<PropertyKey> = {
         let obj_borrowed = obj_ref.borrow();
-        obj_borrowed.properties.keys().cloned().collect()
+        obj_borrowed
+            .own_property_keys_with_exotic()
+            .into_iter()
+            .filter(|key| {
+                !matches!(key, PropertyKey::String(s)
+                    if matches!(s.as_str(), "__super__" | "__super_target__"))
+            })
+            .collect()
     };
 
     // Create result object
@@ -1352,7 +1375,7 @@ pub fn object_get_own_property_descriptors(
     for key in prop_keys {
         let property = {
             let obj_borrowed = obj_ref.borrow();
-            obj_borrowed.get_own_property(&key).cloned()
+            obj_borrowed.get_own_property_with_exotic(&key)
         };
 
         if let Some(property) = property {
